@@ -139,6 +139,8 @@ def _source_forms():
         forms["tensorMetaCallForm"] = " ;; ".join(" ".join(ast.unparse(n).split()) for n in tm.body) if tm else "MISSING"
     except (OSError, SyntaxError):
         forms["tensorMetaCallForm"] = "MISSING"
+    mc = _find_def(t_terms, ["FunsorMeta", "__call__"])
+    forms["metaCallForm"] = " ;; ".join(" ".join(ast.unparse(n).split()) for n in mc.body) if mc else "MISSING"
     fm = _find_def(t_terms, ["FunsorMeta", "__init__"])
     forms["metaInitForm"] = " ;; ".join(" ".join(ast.unparse(n).split()) for n in fm.body) if fm else "MISSING"
     # the op instance cache: key construction and lookup/insert
@@ -355,7 +357,7 @@ INTERPS = {"reflect": reflect, "lazy": lazy, "eager": eager}
 
 class Recipe:
     def __init__(self, name, cls, args, needs=(), interps=("reflect", "lazy", "eager"), expr=None, mcls=None,
-                 cyc=False, pk=(), ri=(), core=False, dyn=False, blob=False):
+                 cyc=False, pk=(), ri=(), core=False, dyn=False, blob=False, kw=None, base=None):
         self.name = name
         self.cls = cls            # table name
         self.args = args          # python source of the tuple of user-level args (for the model + the call)
@@ -368,6 +370,8 @@ class Recipe:
         self.ri = tuple(ri)       # interpretations under which reinterpret is exercised
         self.core = core          # member of the exhaustively enumerated alphabet
         self.dyn = dyn            # dynamic domain (not pinned)
+        self.kw = kw              # call form: (number of positional args, keyword field names in CALL order)
+        self.base = base          # the positional recipe this is another call form of
         self.blob = blob          # leaf recipe whose pickle blob may be loaded after the original is gone
 
 
@@ -475,6 +479,12 @@ RECIPES = [
     Recipe("b", T + "Binary", "(ops.lt, H['x'], H['t0'])", needs=("x", "t0"), core=True,
            pk=("reflect", "lazy", "eager"), ri=("reflect", "lazy")),
     Recipe("b1", T + "Binary", "(ops.lt, H['x'], H['t1'])", needs=("x", "t1")),
+    Recipe("bltr", T + "Binary", "(ops.lt, H['t0'], H['x'])", needs=("x", "t0"), core=True, pk=("reflect",)),
+    Recipe("y0", T + "Variable", "('y0', Real)"),
+    Recipe("bsub", T + "Binary", "(ops.sub, H['x'], H['y0'])", needs=("x", "y0"), interps=("reflect", "lazy"),
+           pk=("reflect", "lazy"), ri=("reflect",)),
+    Recipe("bsubr", T + "Binary", "(ops.sub, H['y0'], H['x'])", needs=("x", "y0"), interps=("reflect", "lazy"),
+           pk=("reflect",)),
     Recipe("bxx", T + "Binary", "(ops.mul, H['x'], H['x'])", needs=("x",), interps=("reflect", "lazy"),
            pk=("reflect",), ri=("reflect",)),
     Recipe("btt", T + "Binary", "(ops.lt, H['t0'], H['t0b'])", needs=("t0", "t0b"), interps=("reflect", "lazy"),
@@ -574,6 +584,36 @@ RECIPES = [
 ]
 OP_RECIPES.extend(_op_recipes())
 RECIPES = RECIPES + OP_RECIPES
+
+# fields of the plain-FunsorMeta classes whose call forms are exercised (checked against the generated table
+# in World.__init__; a mismatch is reported, not assumed)
+FIELDS = {T + "Variable": ["name", "output"], T + "Unary": ["op", "arg"], T + "Binary": ["op", "lhs", "rhs"],
+          T + "Reduce": ["op", "arg", "reduced_vars"], T + "Lambda": ["var", "expr"], T + "Align": ["arg", "names"],
+          T + "Stack": ["name", "parts"], T + "Tuple": ["args"]}
+KW_BASES = ["x", "v5", "u", "b", "bltr", "bsub", "bsubr", "bvt", "red", "lam", "al0", "st", "tu"]
+KW_CORE = {("b", 1, ("rhs", "lhs")), ("b", 0, ("rhs", "lhs", "op")), ("bltr", 1, ("rhs", "lhs"))}
+
+
+def _kw_recipes():
+    """Every call form of a term: all-keyword in every order, and every positional prefix followed by the
+    remaining fields as keywords in every order.  (All-positional is the base recipe.)"""
+    out = []
+    for bn in KW_BASES:
+        b = next(r for r in RECIPES if r.name == bn)
+        fields = FIELDS[b.cls]
+        n = 0
+        for npos in range(len(fields)):
+            for order in itertools.permutations(fields[npos:]):
+                n += 1
+                out.append(Recipe(f"{bn}@{npos}{''.join(f[0] for f in order)}", b.cls, b.args, needs=b.needs,
+                                  interps=b.interps, kw=(npos, tuple(order)), base=bn,
+                                  core=(bn, npos, tuple(order)) in KW_CORE,
+                                  pk=b.pk[:1] if n % 3 == 0 else ()))
+    return out
+
+
+KW_RECIPES = _kw_recipes()
+RECIPES = RECIPES + KW_RECIPES
 RBY = {r.name: r for r in RECIPES}
 ARR_SLOTS = {"A0": 0, "A1": 1, "B": 2, "VT": 3, "VM": 4, "VC": 5, "VS": 6, "VR": 7, "VZ": 8, "VO": 9}
 # array group k -> the slots (re-)allocated together: 0, 1 = the two plain buffers; 2 = a third buffer B with
@@ -632,6 +672,10 @@ class World:
         self.rows = rows
         self.cls_index = {r[0]: k for k, r in enumerate(rows)}
         self.cls_mcls = {r[0]: r[2] for r in rows}
+        self.cls_fields = {r[0]: list(r[3]) for r in rows}
+        for c, f in FIELDS.items():
+            if self.cls_fields.get(c) != f:
+                raise RuntimeError(f"{c}: _ast_fields are {self.cls_fields.get(c)}, the call-form recipes assume {f}")
         self.ids = Ids()
         self.H = {}
         self.A = {}
@@ -670,7 +714,12 @@ class World:
                 return eval(r.expr, self.env)
             if args is None:
                 args = eval(r.args, self.env)
-            return self.env[r.cls.rpartition('.')[2]](*args)
+            c = self.env[r.cls.rpartition('.')[2]]
+            if r.kw is not None:
+                npos, order = r.kw
+                fields = self.cls_fields[r.cls]
+                return c(*args[:npos], **{f: args[fields.index(f)] for f in order})
+            return c(*args)
 
     def table_snapshot(self):
         """{table name: sorted [(key tokens, value address)]} for every observed table."""
@@ -700,7 +749,7 @@ class World:
         return sum(len(c._cons_cache) for c in self.funsor_classes if "_cons_cache" in c.__dict__)
 
 
-PINNED_OPS = ["exp", "lt", "mul", "add", "getitem", "sum", "amax", "prod", "argmax", "unsqueeze", "stack"]
+PINNED_OPS = ["exp", "lt", "mul", "add", "sub", "getitem", "sum", "amax", "prod", "argmax", "unsqueeze", "stack"]
 
 
 def _warm_up(w, rng):
@@ -868,6 +917,41 @@ def random_history(rng, length, recipes):
     return hist
 
 
+def _needs_chain(name, acc):
+    for n in RBY[name].needs:
+        if n in RBY and n not in acc:
+            _needs_chain(n, acc)
+    if name not in acc:
+        acc.append(name)
+    return acc
+
+
+def callform_histories(rng):
+    """Every call form of every base term, alive together with the base (and, for Binary, with the term whose
+    equally-typed fields are swapped): base first then all forms, all forms first then the base, and both bases
+    of a swapped pair interleaved with each other's forms; a drop + gc of the base in the middle of one variant."""
+    out = []
+    forms = {}
+    for r in KW_RECIPES:
+        forms.setdefault(r.base, []).append(r.name)
+    for bn, fs in forms.items():
+        chain = _needs_chain(bn, [])[:-1]
+        pre = [("mk", n, None) for n in chain]
+        f1 = list(fs)
+        rng.shuffle(f1)
+        out.append(pre + [("mk", bn, None)] + [("mk", f, None) for f in f1])
+        f2 = list(fs)
+        rng.shuffle(f2)
+        out.append(pre + [("mk", f, None) for f in f2] + [("mk", bn, None), ("drop", bn), ("gc",), ("mk", f2[0], None)])
+    for a, b in (("b", "bltr"), ("bsub", "bsubr")):
+        chain = [n for n in _needs_chain(a, []) + _needs_chain(b, []) if n not in (a, b)]
+        chain = list(dict.fromkeys(chain))
+        mix = [a, b] + forms[a] + forms[b]
+        rng.shuffle(mix)
+        out.append([("mk", n, None) for n in chain] + [("mk", m, None) for m in mix])
+    return out
+
+
 def fill_interps(hist, rng):
     out = []
     for st in hist:
@@ -1001,7 +1085,17 @@ class Run:
                 if self.stale is not None:
                     self.stale = (len(self.real_obs) - 1, self.stale)
             mcls = r.mcls or w.cls_mcls[r.cls]
-            self.req.append(["mk", RSLOT[r.name], w.cls_index[r.cls], r.cyc, Q(mcls), toks, w.ids(obj)])
+            if r.kw is not None:
+                npos, order = r.kw
+                fields = w.cls_fields[r.cls]
+                ptoks = []
+                for a in args[:npos]:
+                    enc(a, w.ids, ptoks)
+                kws = [[Q(f), enc(args[fields.index(f)], w.ids, [])] for f in order]
+                self.req.append(["mkkw", RSLOT[r.name], w.cls_index[r.cls], r.cyc, Q(mcls), ptoks, kws,
+                                 w.ids(obj)])
+            else:
+                self.req.append(["mk", RSLOT[r.name], w.cls_index[r.cls], r.cyc, Q(mcls), toks, w.ids(obj)])
             self.req.append(["sweep"])
             self.tracked.append((self.nobs, RSLOT[r.name], weakref.ref(obj)))
             del obj, args
@@ -1083,6 +1177,19 @@ class Run:
         gc.freeze()
 
 
+def call_src(r):
+    """python source of the real construction of recipe r"""
+    if r.expr is not None:
+        return r.expr
+    c = r.cls.rpartition('.')[2]
+    if r.kw is None:
+        return f"{c}(*{r.args})"
+    npos, order = r.kw
+    fields = FIELDS[r.cls]
+    kws = ", ".join(f"{f}=({r.args})[{fields.index(f)}]" for f in order)
+    return f"{c}(*({r.args})[:{npos}], {kws})"
+
+
 def stale_request(r, args, obj, w):
     """"a later request never receives a stale object built from different arguments": what the returned object
     says it was built from must be == the request (arrays and interned objects by identity).  Ops record their
@@ -1100,7 +1207,15 @@ def stale_request(r, args, obj, w):
         # fidelity fact, counted not gated: the funsor stores the very array it was keyed by.  (The gate is
         # identity: same array object <=> same Tensor, through the model comparison.)
         w.data_is_arg[obj.data is w.A[ARR_SLOTS[r.needs[0]]]] += 1
-    elif isinstance(obj, Unary) and r.cls.endswith("Unary") and r.expr is None:
+    if isinstance(obj, Funsor) and r.expr is None and w.cls_mcls.get(r.cls) == "FunsorMeta" \
+            and f"{type(obj).__origin__.__module__}.{type(obj).__origin__.__qualname__}" == r.cls:
+        # the term handed back stores the requested values in FIELD order, whatever the call form
+        vals = obj._ast_values
+        if len(vals) != len(args) or not all(
+                (v is a) if (is_interned(a) or isinstance(a, np.ndarray)) else (v == a) for v, a in zip(vals, args)):
+            return (f"{r.name}: {r.cls.rpartition('.')[2]} called as {call_src(r)} returned a term whose "
+                    f"_ast_values are {vals!r}, requested (field order) {tuple(args)!r}")
+    if isinstance(obj, Unary) and r.cls.endswith("Unary") and r.expr is None:
         if obj.op is not args[0] or obj.arg is not args[1]:
             return f"{r.name}: Unary(op, arg) returned a term with op {obj.op!r} / another arg, requested {args[0]!r}"
         if r.name.startswith("ugs_") and r.name[4:] in GS_IDX:
@@ -1259,6 +1374,10 @@ DISTINCT = [("n1", "n1b3"), ("x", "xb"), ("t0", "t0b"), ("t0", "t0n"), ("sl", "s
             ("gs_full", "gs_full4"), ("gs_full", "gs_full1"), ("ugs_full", "ugs_full4"), ("gs_i2", "gs_s23"),
             ("ugs_i2", "ugs_s23"), ("gs_c1", "gs_c01"), ("gs_el_rev", "gs_el_rev0"),
             ("ugs_el_rev", "ugs_el_rev0"), ("gs_nn", "gs_n0"), ("gs_full", "gs_el")]
+ALIASES = ALIASES + [(r.base, r.name) for r in KW_RECIPES]
+DISTINCT = DISTINCT + [("b", "bltr"), ("bsub", "bsubr")] + \
+    [(o, r.name) for r in KW_RECIPES for (bb, o) in (("b", "bltr"), ("bltr", "b"), ("bsub", "bsubr"), ("bsubr", "bsub"))
+     if r.base == bb]
 VALUE_REF = {"usum": np.sum, "uamax": np.amax, "uprod": np.prod, "uargmax": np.argmax}
 VALUE_DATA = np.arange(24, dtype=np.float64).reshape(2, 3, 4) / 7.0
 
@@ -1409,8 +1528,7 @@ def python_snippet(hist, note):
         kind = sym[0]
         if kind == "mk":
             r = RBY[sym[1]]
-            src = r.expr if r.expr is not None else f"{r.cls.rpartition('.')[2]}(*{r.args})"
-            lines.append(f"with {sym[2]}: H[{r.name!r}] = {src}")
+            lines.append(f"with {sym[2]}: H[{r.name!r}] = {call_src(r)}")
         elif kind == "drop":
             lines.append(f"del H[{sym[1]!r}]")
         elif kind == "dropP":
@@ -1683,6 +1801,10 @@ def _correspond(ctx):
             all_runs += run_batch(ctx, w, hs[i:i + 300], f"exhaustive-depth-{depth}")
             if len([f for f in ctx.failures if f.witness is not None]) >= 5:
                 break
+        cf = []
+        for _ in range(2 if ctx.tier == "quick" else 20):
+            cf += [fill_interps(h, ctx.rng) for h in callform_histories(ctx.rng)]
+        all_runs += run_batch(ctx, w, cf, "call-forms")
         nrand = 300 if ctx.tier == "quick" else 6000
         maxlen = 36 if ctx.tier == "quick" else 60
         rh = [fill_interps(random_history(ctx.rng, ctx.rng.randint(6, maxlen), RECIPES), ctx.rng)
